@@ -70,15 +70,16 @@ Print Assumptions C15_deep_by_content_project_level.
 
 (* ---------------------------------------------------------------- exclude_never_touched — FULL, for /repo as it is
    (cfg_current; repair 74ea1a0 hands the patterns to copytree): a file whose own name matches an exclude pattern —
-   a user pattern, or the state point / document name — is never created or modified by the file walk, at any
-   depth, also inside directories that are copied as a whole, dry or real, whatever the outcome.  "Never created or
+   a user pattern, or at the top level of the job its own state point / document name ([at_path]: below the top
+   level only the user's patterns count, C13_excluded_below_top_level) — is never created or modified by the file
+   walk, at any depth, also inside directories that are copied as a whole, dry or real, whatever the outcome.  "Never created or
    modified": the node at the path is what it was (absent stays absent).  The one proviso is about kinds, not
    about files: if the path is a DIRECTORY on both sides it is walked like every common directory (directories are
    not matched against the patterns when they exist on both sides), so its node may change below.  The former
    counterexample is corpus/C15/w5. *)
 Theorem C15_exclude_never_touched : forall frepr p fuel o deep sdir ddir subdir,
   wf_node (Dir sdir) = true ->
-  p <> [] -> excluded cfg_current o (last p []) = true ->
+  p <> [] -> excluded cfg_current (at_path o p) (last p []) = true ->
   (forall es, lookup_path p (Dir ddir) <> Some (Dir es)) ->
   lookup_path p (Dir (fst (sync_ws frepr cfg_current fuel o deep sdir ddir subdir))) = lookup_path p (Dir ddir).
 Proof. exact exclude_never_touched_current. Qed.
